@@ -14,13 +14,13 @@ EXTENDS MTValues
 RECURSIVE GetType(_, _), Shrink(_, _), ShrinkTD(_, _), TD2Dict(_)
 
 \* RewriteAnonymousTypedDictToDict().rewrite(t): GenericTypeRewriter.rewrite dispatches on
-\* the NAME of the type: Dict, List, Set, Tuple, Generator, Union, TypedDict are descended
-\* into; DefaultDict, Type, Iterator, Callable and classes are returned as they are.
+\* the NAME of the type: Dict, List, Set, Tuple, Generator, Iterator, DefaultDict, Union, TypedDict are
+\* descended into (Iterator and DefaultDict since fix d4a0820); Type, Callable and classes are returned as they are.
 TD2Dict(t) ==
   CASE t.k = "td" ->
          IF t.u = {} THEN TDict(TAny, TAny)
          ELSE TDict(TCls("str"), MkUnion({TD2Dict(f.a[1]) : f \in t.u}))
-    [] t.k \in {"list", "set", "dict", "generator"} ->
+    [] t.k \in {"list", "set", "dict", "generator", "iterator", "ddict"} ->
          Mk(t.k, "", [i \in 1..Len(t.a) |-> TD2Dict(t.a[i])], {})
     [] t.k = "tuple" -> Mk("tuple", "", [i \in 1..Len(t.a) |-> TD2Dict(t.a[i])], {})
     [] t.k = "union" -> MkUnion({TD2Dict(m) : m \in t.u})
